@@ -25,6 +25,28 @@ struct FromInt {
     FromInt(int) { } // int -> FromInt, but not back
 };
 
+// round 2: program-defined specialisations.  [meta.trans.other]/3.3.1 routes common_type<T1, T2> through
+// common_type<decay_t<T1>, decay_t<T2>> whenever decay changes a type, so a specialisation for <UA, UB> must be found
+// for every cv/ref flavour of the arguments (this is how chrono::duration gets its common type); UD/UE are specialised
+// in ONE order only, UC is the common type and converts from both.
+struct UA { };
+struct UB { };
+struct UC {
+    UC() = default;
+    UC(UA);
+    UC(UB);
+};
+struct UD { };
+struct UE { };
+} // namespace
+template <> struct std::common_type<UA, UB> { using type = UC; };
+template <> struct std::common_type<UB, UA> { using type = UC; };
+template <> struct etl::common_type<UA, UB> { using type = UC; };
+template <> struct etl::common_type<UB, UA> { using type = UC; };
+template <> struct std::common_type<UD, UE> { using type = UC; };
+template <> struct etl::common_type<UD, UE> { using type = UC; };
+namespace {
+
 template <typename... Ts>
 struct TL {
     static constexpr std::size_t size = sizeof...(Ts);
@@ -82,7 +104,50 @@ constexpr auto table4_first()
     return t;
 }
 
-void judge(mc::Reporter& r, Cell const& c, std::string const& kase, std::uint64_t& ev, std::uint64_t& nt)
+// cv/ref flavours of an argument
+template <typename T, std::size_t V>
+struct Flavour;
+template <typename T> struct Flavour<T, 0> { using type = T; };
+template <typename T> struct Flavour<T, 1> { using type = T&; };
+template <typename T> struct Flavour<T, 2> { using type = T const&; };
+template <typename T> struct Flavour<T, 3> { using type = T&&; };
+template <typename T> struct Flavour<T, 4> { using type = T const; };
+template <typename T> struct Flavour<T, 5> { using type = T volatile&; };
+template <typename T> struct Flavour<T, 6> { using type = T const volatile; };
+constexpr std::size_t NFL = 7;
+constexpr char const* flavour_names[NFL] = {"", "&", " const&", "&&", " const", " volatile&", " const volatile"};
+using UserFirst  = TL<UA, UB, UD, UE, UA, UC>;
+using UserSecond = TL<UB, UA, UE, UD, UC, UB>;
+constexpr char const* user_first[]  = {"UA", "UB", "UD", "UE", "UA", "UC"};
+constexpr char const* user_second[] = {"UB", "UA", "UE", "UD", "UC", "UB"};
+template <std::size_t P>
+constexpr auto table_user_pair()
+{
+    std::array<Cell, NFL * NFL> t{};
+    [&]<std::size_t... K>(std::index_sequence<K...>) {
+        ((t[K] = cell<typename Flavour<typename At<P, UserFirst>::type, K / NFL>::type, typename Flavour<typename At<P, UserSecond>::type, K % NFL>::type>()), ...);
+    }(std::make_index_sequence<NFL * NFL>{});
+    return t;
+}
+// three arguments: <UA flavour, UB flavour, third> and <third, UA flavour, UB flavour>
+using Thirds = TL<UC, UC&, UC const, int, UA, UB&>;
+constexpr char const* third_names[] = {"UC", "UC&", "UC const", "int", "UA", "UB&"};
+template <std::size_t Th, bool ThirdFirst>
+constexpr auto table_user_triple()
+{
+    std::array<Cell, NFL * NFL> t{};
+    [&]<std::size_t... K>(std::index_sequence<K...>) {
+        if constexpr (ThirdFirst) {
+            ((t[K] = cell<typename At<Th, Thirds>::type, typename Flavour<UA, K / NFL>::type, typename Flavour<UB, K % NFL>::type>()), ...);
+        } else {
+            ((t[K] = cell<typename Flavour<UA, K / NFL>::type, typename Flavour<UB, K % NFL>::type, typename At<Th, Thirds>::type>()), ...);
+        }
+    }(std::make_index_sequence<NFL * NFL>{});
+    return t;
+}
+
+void judge(mc::Reporter& r, Cell const& c, std::string const& kase, std::uint64_t& ev, std::uint64_t& nt, char const* subject = "common_type<T1,T2,T3...>", char const* cls_suffix = "");
+void judge(mc::Reporter& r, Cell const& c, std::string const& kase, std::uint64_t& ev, std::uint64_t& nt, char const* subject, char const* cls_suffix)
 {
     ++ev;
     if (c.std_has) { ++nt; }
@@ -91,7 +156,7 @@ void judge(mc::Reporter& r, Cell const& c, std::string const& kase, std::uint64_
     if (c.std_has && !c.etl_has) { cls = "std_has_type_etl_not"; }
     if (!c.std_has && c.etl_has) { cls = "etl_has_type_std_not"; }
     if (c.std_has && c.etl_has && !c.same) { cls = "different_type"; }
-    if (cls != nullptr) { r.violation("C15", "common_type<T1,T2,T3...>", cls, kase, cat("std has ::type: ", c.std_has, ", etl has ::type: ", c.etl_has, ", same: ", c.same)); }
+    if (cls != nullptr) { r.violation("C15", subject, cat(cls, cls_suffix), kase, cat("std has ::type: ", c.std_has, ", etl has ::type: ", c.etl_has, ", same: ", c.same)); }
 }
 
 } // namespace
@@ -126,6 +191,37 @@ int main(int argc, char** argv)
                 ...);
         }(std::make_index_sequence<N>{});
         r.sample("all 5^4 ordered 4-tuples over {int, char*, void*, Base*, Left*}");
+        r.count("evaluations", ev);
+        r.count("distinct_nontrivial", nt);
+    });
+    m.job("common_type/user-specialisations", {"quick", "thorough"}, [](mc::Reporter& r) {
+        std::uint64_t ev = 0, nt = 0;
+        [&]<std::size_t... P>(std::index_sequence<P...>) {
+            (([&] {
+                static constexpr auto t = table_user_pair<P>();
+                for (std::size_t k = 0; k < t.size(); ++k) {
+                    bool const decays = (k / NFL) != 0 || (k % NFL) != 0;
+                    judge(r, t[k], cat("common_type<", user_first[P], flavour_names[k / NFL], ", ", user_second[P], flavour_names[k % NFL], ">"), ev, nt,
+                        "common_type<T,U> (program-defined specialisation)", decays ? "+cvref_arguments" : "");
+                }
+            }()),
+                ...);
+        }(std::make_index_sequence<UserFirst::size>{});
+        [&]<std::size_t... Th>(std::index_sequence<Th...>) {
+            (([&] {
+                static constexpr auto t1 = table_user_triple<Th, false>();
+                static constexpr auto t2 = table_user_triple<Th, true>();
+                for (std::size_t k = 0; k < t1.size(); ++k) {
+                    bool const decays = (k / NFL) != 0 || (k % NFL) != 0;
+                    judge(r, t1[k], cat("common_type<UA", flavour_names[k / NFL], ", UB", flavour_names[k % NFL], ", ", third_names[Th], ">"), ev, nt,
+                        "common_type<T1,T2,T3> (program-defined specialisation)", decays ? "+cvref_arguments" : "");
+                    judge(r, t2[k], cat("common_type<", third_names[Th], ", UA", flavour_names[k / NFL], ", UB", flavour_names[k % NFL], ">"), ev, nt,
+                        "common_type<T1,T2,T3> (program-defined specialisation)", decays ? "+cvref_arguments" : "");
+                }
+            }()),
+                ...);
+        }(std::make_index_sequence<Thirds::size>{});
+        r.sample("common_type<UA&, UB const> with common_type<UA, UB> specialised as UC ... 6 pairs x 7 x 7 cv/ref flavours + 6 third arguments x 2 positions x 49");
         r.count("evaluations", ev);
         r.count("distinct_nontrivial", nt);
     });
